@@ -1857,6 +1857,13 @@ func requiredLandmarkAlternativeMatch(input []rune, start, endAt int, alt syntax
 		if end-start < alt.MinRepeat {
 			return requiredLandmarkMatch{}, false
 		}
+		if alt.RequireWhitespaceAfter && alt.TrailingWhitespaceSet != nil {
+			// the set may overlap the whitespace that has to follow it: a match can then give
+			// repetitions back, so look for an admissible end that is followed by whitespace
+			for end-start > alt.MinRepeat && (end >= endAt || !alt.TrailingWhitespaceSet.CharIn(input[end])) {
+				end--
+			}
+		}
 	} else {
 		return requiredLandmarkMatch{}, false
 	}
